@@ -10,7 +10,9 @@ PY = os.environ.get("VERIF_PY", "/venv/bin/python")
 DEPS = os.path.join(VERIF, ".deps")
 STUBS = os.path.join(VERIF, "vmon", "stubs")
 OUT = os.path.join(VERIF, "out")
-EVIDENCE = os.path.join(VERIF, "evidence")
+# evidence/ describes runs against /repo itself; a run against any other tree (a seeded break under VERIF_REPO) must
+# never overwrite it
+EVIDENCE = os.path.join(VERIF, "evidence") if os.path.realpath(REPO) == "/repo" else os.path.join(OUT, "evidence-other-tree")
 NCPU = int(os.environ.get("VERIF_JOBS", "0")) or min(16, os.cpu_count() or 4)
 
 
